@@ -26,7 +26,7 @@ def enumerate_cases(wd):
             raise ToolError("MC_AppCodec enumeration failed: " + "; ".join(errs[:4])[:500])
         cases, pairs = [], []
         for line in out.splitlines():
-            m = re.match(r'<<"(CASE|PAIR|ATTR)", "(.*)">>$', line.strip())
+            m = re.match(r'<<"(CASE|PAIR|ATTR|FF)", "(.*)">>$', line.strip())
             if m:
                 (cases if m.group(1) == "CASE" else pairs).append(json.loads(vlib.tla_unescape(m.group(2))))
         return cases, pairs
@@ -87,6 +87,10 @@ def peer_fragments(tier, wd):
         abstract += ost_check.simulated(tier, wd, devs, alpha, groups, num, 25)
     scen = [concretize.scenario(a["id"], a["hist"], a["model"], a["retries"]) for a in abstract]
     scen += big_static_scenarios(tier)
+    import bigecho
+    scen += bigecho.scenarios(tier)
+    with open(vlib.ROOT + "/corpus/ost_concrete.json") as f:
+        scen += json.load(f)
     raw, _ = vlib.run_harness("ost", scen, "chk_C09/ost")
     mabs = list(mst_check.corpus())
     for gi, (alpha, cfgname) in enumerate(mst_check.ALL_PAIRS):
@@ -148,7 +152,7 @@ def run(tier, replay=None):
             if not line:
                 continue
             r = json.loads(line)
-            if r.get("k") not in ("case", "pair", "attr"):
+            if r.get("k") not in ("case", "pair", "attr", "ff"):
                 continue
             s = by_id[r["id"]]
             e = {"k": r["k"], "id": r["id"], "panic": "panic" in r, "hv": r.get("hv", ""), "ov": r.get("ov", ""),
@@ -160,6 +164,9 @@ def run(tier, replay=None):
                 e["exp"] = s["exp"]
             elif r["k"] == "attr":
                 e["at"] = s["at"]
+                e["exp"] = s["exp"]
+            elif r["k"] == "ff":
+                e["ff"] = s["ff"]
                 e["exp"] = s["exp"]
             else:
                 e["c1"], e["c2"] = s["c1"], s["c2"]
@@ -176,7 +183,7 @@ def run(tier, replay=None):
     open_f = [f for f in known["findings"] if prop in f.get("reasons", {}) and f["status"] == "open"]
     unexplained, explained = [], {}
     for v in viols:
-        if not v["sc"].startswith(("case", "pair", "attr")):
+        if not v["sc"].startswith(("case", "pair", "attr", "ff ")):
             unexplained.append(v)
             continue
         sc = by_id[int(v["sc"].split()[1])]
@@ -225,7 +232,7 @@ def run(tier, replay=None):
            "unexplained": [{"reason": u["reason"], "case": u.get("case")} for u in unexplained[:20]],
            "exhaustive": tier == "thorough" and not replay}
     vlib.write_evidence(prop, tier, "other", cov,
-                        ["object contents are random bytes (value fidelity is C10)", "free-format (g70) and attribute (g0) objects are not enumerated",
+                        ["object contents are random bytes (value fidelity is C10)", "free-format (g70) objects are enumerated by size class only (3 variable-part lengths x 3 declared-length deltas)",
                          "the table AppCodec.tla is a transcription of the IEEE 1815 object library made for this check",
                          "the must-accept set is the set of combinations the library's own writers produce"],
                         time.time() - t0, len(unexplained))
